@@ -313,16 +313,16 @@ Print Assumptions C13_concat_routing_refuted.
    is preceded, in the SAME iteration of the loop over the expanded names, by vtable.IsVirtualTablePresent for the
    requesting org (rules C13.* of GenOrderCheck.co_rules).  The skeleton drops data: that the check's result is
    honoured is what the harness observes. ---- *)
-From SigP Require GenOrderCheck GenOrderProofs.
+From SigP Require GenOrderCheck GenOrderC13.
 Theorem C13_code_checks_ownership_before_deleting : forall r : GenOrderCheck.rule,
   In r GenOrderCheck.c13_rules -> GenOrderCheck.rule_holds r.
-Proof. exact GenOrderProofs.co_C13_rules_hold. Qed.
+Proof. exact GenOrderC13.co_C13_rules_hold. Qed.
 Print Assumptions C13_code_checks_ownership_before_deleting.
 
 (* ---- the per-org virtual-table list is read and written only under globalTableAccessLock (guarded-by skeletons
    regenerated from /repo on every run; rule C13.* of GenGuardCheck.gb_rules; initialisation functions listed). ---- *)
-From SigP Require GenGuardCheck GenGuardProofs.
+From SigP Require GenGuardCheck GenGuardC13.
 Theorem C13_code_virtual_table_list_touched_only_under_its_lock : forall r : GenGuardCheck.grule,
   In r GenGuardCheck.c13_grules -> GenGuardCheck.grule_holds r.
-Proof. exact GenGuardProofs.gb_C13_rules_hold. Qed.
+Proof. exact GenGuardC13.gb_C13_rules_hold. Qed.
 Print Assumptions C13_code_virtual_table_list_touched_only_under_its_lock.
